@@ -15,7 +15,7 @@ Decided on every CFG path of ThreadPool::resizeLocked and the ring consumers:
 import re
 from lib import typestate
 from lib.facts import Pos, const_val, expr_str, is_call, order_at_least, strip_casts, subexprs
-from lib.rules import atomic_ops, field_name, lvalue_path
+from lib.rules import atomic_ops, field_name, lvalue_path, single_def_value
 
 LEVEL = "other"
 EXPLANATION = __doc__
@@ -67,6 +67,9 @@ def run(R):
                 c = strip_casts(t["cond"])
                 if isinstance(c, dict) and c.get("k") == "bin" and c.get("op") == "<":
                     r = strip_casts(c.get("r"))
+                    if isinstance(r, dict) and r.get("k") == "var":   # `const size_t n = rings_.size(); i < n`
+                        d = single_def_value(fn, r)
+                        r = strip_casts(d) if d is not None else r
                     if isinstance(r, dict) and r.get("k") == "call" and r.get("name") == "size" and (field_name(lvalue_path(F, fn, r.get("obj"))) or "").endswith("::" + fld):
                         ok = True
             R.ob("C03.sequence", fn, fn.loc, ok, "drain of %s covers the whole arena" % fld if ok else "drain of %s does not cover the whole arena" % fld, sitekey="drain-bound:" + fld, why="shadow rings from an earlier, larger size may still hold tasks")
